@@ -18,6 +18,7 @@ Producer: harness/layers_common.py.
   fromdata NAME H                             PropertyLayer.from_data(NAME, <array held as H>): a free-standing layer (copy)
   grab H LID | hget H C | hset H C V | hdump H
   dump LID | dumpn NAME | lsel LID COND | agg LID sum|max|min
+  gset NAME                                   grid.NAME = <a plain object>  (new: HasPropertyLayers.__setattr__)
   place A C | move A C | remove A | empties
   select oe=0|1 conds=a:gt:3,b:le:2|- ext=a:hi,b:lo|- masks=s1,l0101|- save=K|-
   dtype LID                                   layer.data.dtype (bool|int|float)
@@ -200,6 +201,7 @@ def parseOp (dims : List Nat) (impl : Impl) (geo : Geo) : List String → Option
   | ["hdump", h] => do pure (.hdump (← h.toNat?))
   | ["dump", l] => do pure (.dump (← l.toNat?))
   | ["dumpn", n] => some (.dumpName n)
+  | ["gset", n] => some (.gridSet n)
   | ["dtype", l] => do pure (.dtype (← l.toNat?))
   | ["lsel", l, cond] => do pure (.layerSelect (← l.toNat?) (← parsePred cond))
   | ["agg", l, k] => do
@@ -253,6 +255,7 @@ def fmtErr : Err → String
   | .noHandle => "err NoHandle"
   | .noMask => "err NoMask"
   | .impl => "err Impl"
+  | .shadowed => "err Shadowed"
 
 def fmtOut : Out → String
   | .ok => "ok"
